@@ -15,8 +15,8 @@ import (
 func TestC05Stateful(t *testing.T) {
 	theT = t
 	col := ev.New("C05", "stateful",
-		"rapid state machine: committee (= Alphabet) sizes 1/4/7; ContainerFee and ContainerAliasFee changed through Netmap setConfig between puts (0,1,7,12345,10^8); before each put the owner's NEOFS balance is set to need-1 / need / need+1 / 0 / large where need=(fee[+aliasFee])*N; named and unnamed, fresh and repeated puts, names reused after the deletion of their previous container (the domain stays registered); oracle: success iff balance >= need; on success owner -need, every Alphabet standard account +fee per node, nobody else changes, supply unchanged, N TransferX with details 0x10||cid, container stored; on failure the full snapshot of all contracts is unchanged; non-trivial = a put at need-1 or need with fee>0 and N>1",
-		"owners are never Alphabet accounts", "every other reason for a put to fail is excluded by construction (fresh or live-unnamed blob, valid free name, Alphabet witness)", "fee settings are non-negative")
+		"rapid state machine: committee (= Alphabet) sizes 1/4/7; ContainerFee and ContainerAliasFee changed through Netmap setConfig between puts (0,1,7,12345,10^8); before each put the owner's NEOFS balance is set to need-1 / need / need+1 / 0 / large where need=(fee[+aliasFee])*N; owners are three users and the standard account of a drawn Alphabet node (which pays one share to itself: net -need+fee); named and unnamed, fresh and repeated puts, names reused after the deletion of their previous container (the domain stays registered); oracle: success iff balance >= need; on success owner -need, every Alphabet standard account +fee per node, nobody else changes, supply unchanged, N TransferX with details 0x10||cid, container stored; on failure the full snapshot of all contracts is unchanged; non-trivial = a put at need-1 or need with fee>0 and N>1",
+		"every other reason for a put to fail is excluded by construction (fresh or live-unnamed blob, valid free name, Alphabet witness)", "fee settings are non-negative")
 	runRapid(t, col, func(rt *rapid.T, h *ev.History) {
 		n := rapid.SampledFrom([]int{1, 4, 4, 7}).Draw(rt, "n")
 		feeVals := []int64{0, 1, 7, 12345, 1_0000_0000}
@@ -24,6 +24,8 @@ func TestC05Stateful(t *testing.T) {
 		aliasFee := rapid.SampledFrom(feeVals).Draw(rt, "aliasFee")
 		w := newCntWorld(n, h, fee, aliasFee)
 		defer w.close()
+		// owner 3 is the standard account of an Alphabet node: one of its fee payments goes to itself
+		w.owners = append(w.owners, w.c.Member(rapid.IntRange(0, n-1).Draw(rt, "ownerNode")))
 		h.Op("N=%d fee=%d aliasFee=%d", n, fee, aliasFee)
 		nodeAcc := map[string]bool{}
 		for _, p := range w.c.Pubs {
@@ -79,7 +81,7 @@ func TestC05Stateful(t *testing.T) {
 						h.Mark("name-reused-after-delete")
 					}
 				}
-				b = w.mkBlob(rapid.IntRange(0, 2).Draw(rt, "owner"), rapid.SampledFrom([]int{0, 3}).Draw(rt, "off"), 1000+salt, name)
+				b = w.mkBlob(rapid.IntRange(0, 3).Draw(rt, "owner"), rapid.SampledFrom([]int{0, 3}).Draw(rt, "off"), 1000+salt, name)
 			}
 			per := fee
 			if b.name != "" {
@@ -143,6 +145,10 @@ func TestC05Stateful(t *testing.T) {
 				continue
 			}
 			h.Mark("paid")
+			ownerIsNode := nodeAcc[hex(owner.BytesBE())]
+			if ownerIsNode {
+				h.Mark("owner-is-an-alphabet-node")
+			}
 			if !repeated && b.name == "" {
 				liveUnnamed = append(liveUnnamed, b)
 			}
@@ -165,6 +171,8 @@ func TestC05Stateful(t *testing.T) {
 				d := new(big.Int).Sub(post.bal(kb), preBal.bal(kb))
 				var want *big.Int
 				switch {
+				case k == hex(owner.BytesBE()) && ownerIsNode:
+					want = new(big.Int).Add(new(big.Int).Neg(need), bi(per)) // pays N shares, receives its own
 				case k == hex(owner.BytesBE()):
 					want = new(big.Int).Neg(need)
 				case nodeAcc[k]:
@@ -178,7 +186,7 @@ func TestC05Stateful(t *testing.T) {
 			}
 			for k := range nodeAcc {
 				kb, _ := hexDecode(k)
-				if d := new(big.Int).Sub(post.bal(kb), preBal.bal(kb)); d.Cmp(bi(per)) != 0 {
+				if d := new(big.Int).Sub(post.bal(kb), preBal.bal(kb)); d.Cmp(bi(per)) != 0 && k != hex(owner.BytesBE()) {
 					fail("C05: Alphabet node %s received %v, expected %d", k, d, per)
 				}
 			}
